@@ -99,33 +99,33 @@ type edge struct {
 }
 
 type node struct {
-	id      int
-	key     string
-	snap    *Snapshot
-	parent  int
-	label   string
-	depth   int
-	budget  Budget
-	mon     MonState
-	edges   []edge
-	quiesc  bool
+	id       int
+	key      string
+	snap     *Snapshot
+	parent   int
+	label    string
+	depth    int
+	budget   Budget
+	mon      MonState
+	edges    []edge
+	quiesc   bool
 	expanded bool
 }
 
 // Config selects what is explored.
 type Config struct {
-	Sc          *Scenario
-	Actions     []string // user deviation alphabet
-	MaxUser     int
-	MaxDisturb  int
+	Sc           *Scenario
+	Actions      []string // user deviation alphabet
+	MaxUser      int
+	MaxDisturb   int
 	Disturbances []string // "crash", "midcrash", "error", "conflict"
-	StateCap    int
-	Monitors    []Monitor
-	Deadline    time.Time
+	StateCap     int
+	Monitors     []Monitor
+	Deadline     time.Time
 	// InjectOncePerControlState bounds WHERE user deviations are injected (see expand()).
 	InjectOncePerControlState bool
-	EarlyTicks  bool // thorough: ticks also while work is pending (counted as disturbance)
-	Verbose     bool
+	EarlyTicks                bool // thorough: ticks also while work is pending (counted as disturbance)
+	Verbose                   bool
 }
 
 type Explorer struct {
@@ -133,23 +133,23 @@ type Explorer struct {
 	Cfg Config
 	R   *lib.Report
 
-	nodes    []*node
-	byKey    map[string][]int
-	frontier []int
-	frontier2 []int // nodes that already spent deviation budget
+	nodes      []*node
+	byKey      map[string][]int
+	frontier   []int
+	frontier2  []int // nodes that already spent deviation budget
 	initBudget Budget
-	Counters map[string]int64
-	cur      *Ctx
+	Counters   map[string]int64
+	cur        *Ctx
 
-	Transitions  int64
-	ImplCalls    int64
-	Terminals    map[string]int // canonical terminal-state classes
-	Capped       bool
-	violated     map[string]bool
-	actions      map[string]*UserAction
-	actionIndex  map[string]uint
+	Transitions int64
+	ImplCalls   int64
+	Terminals   map[string]int // canonical terminal-state classes
+	Capped      bool
+	violated    map[string]bool
+	actions     map[string]*UserAction
+	actionIndex map[string]uint
 	// Proj, when non-nil, collects distinct projections of the state (abstraction diagnostics).
-	Proj map[string]map[string]bool
+	Proj         map[string]map[string]bool
 	lastProgress time.Time
 	injected     map[string]bool
 }
@@ -161,6 +161,7 @@ type UserAction struct {
 	Name    string
 	OneShot bool
 	Free    bool // not counted against the deviation budget (release, approve)
+	NoCost  bool // a deviation (injected once per control state, never a fair step) that does not consume the user budget: it can be combined with one costed deviation
 	Guard   func(w *World, sc *Scenario, mon MonState) bool
 	Do      func(w *World, sc *Scenario) error
 	// After lets the action record a pending user request for the monitors.
@@ -213,10 +214,10 @@ func (ex *Explorer) violate(x *Ctx, sig, detail string) {
 
 // enabled lists the labels of all transitions enabled in the current (restored) state.
 type enabledSet struct {
-	fair    []string // controller reconciles, env steps, gc
-	tick    bool
-	user    []string
-	crash   bool
+	fair  []string // controller reconciles, env steps, gc
+	tick  bool
+	user  []string
+	crash bool
 }
 
 func (ex *Explorer) enabled(n *node) enabledSet {
@@ -258,7 +259,7 @@ func (ex *Explorer) enabled(n *node) enabledSet {
 		if a == nil {
 			continue
 		}
-		if !a.Free && n.budget.User <= 0 {
+		if !a.Free && !a.NoCost && n.budget.User <= 0 {
 			continue
 		}
 		if a.OneShot && n.budget.Used&(1<<ex.actionIndex[name]) != 0 {
@@ -281,11 +282,22 @@ func (ex *Explorer) enabled(n *node) enabledSet {
 
 // exec executes one labelled transition from the current world state. It returns nil if not applicable.
 func (ex *Explorer) exec(x *Ctx, label string, f Fault) *Transition {
-	w := ex.W
-	t := &Transition{Label: label, Fault: f}
 	x.Label = label
 	ex.cur = x
 	defer func() { ex.cur = nil }()
+	t := ex.perform(x, label, f)
+	ex.Transitions++
+	for _, m := range ex.Cfg.Monitors {
+		m.OnTransition(x, t)
+	}
+	return t
+}
+
+// perform executes the transition itself; monitors are not involved (x may be nil for silent look-ahead runs,
+// user actions then leave no trace in the monitor state).
+func (ex *Explorer) perform(x *Ctx, label string, f Fault) *Transition {
+	w := ex.W
+	t := &Transition{Label: label, Fault: f}
 	switch {
 	case label == "tick":
 		t.Actor = "tick"
@@ -298,13 +310,15 @@ func (ex *Explorer) exec(x *Ctx, label string, f Fault) *Transition {
 		t.Actor, t.Deviant = "user", !a.Free
 		log, err := w.As("user", func() error { return a.Do(w, ex.Cfg.Sc) })
 		t.Log = log
-		if err != nil {
-			x.Mon["user.lastError"] = "1"
-		} else {
-			delete(x.Mon, "user.lastError")
-		}
-		if a.After != nil {
-			a.After(x.Mon)
+		if x != nil {
+			if err != nil {
+				x.Mon["user.lastError"] = "1"
+			} else {
+				delete(x.Mon, "user.lastError")
+			}
+			if a.After != nil {
+				a.After(x.Mon)
+			}
 		}
 	case strings.HasPrefix(label, "gc:"):
 		t.Actor = "gc"
@@ -343,11 +357,42 @@ func (ex *Explorer) exec(x *Ctx, label string, f Fault) *Transition {
 		t.Deviant = f.Kind != ""
 		ex.ImplCalls++
 	}
-	ex.Transitions++
-	for _, m := range ex.Cfg.Monitors {
-		m.OnTransition(x, t)
-	}
 	return t
+}
+
+// settlesForGood decides whether a state in which no controller, environment or gc transition changes anything
+// (free-queue mode) is final, i.e. stays unchanged however much time passes: time is advanced AgeCap+2 times
+// (after which every clock comparison the state can influence has saturated, the same argument that bounds the
+// ages in the canonical state) and after each tick every enabled transition is run to a fixpoint, silently. The
+// state is final if nothing but ages changed.
+func (ex *Explorer) settlesForGood(n *node) bool {
+	w := ex.W
+	w.Restore(n.snap)
+	cfg := func() string {
+		var parts []string
+		for _, o := range w.CanonObjects() {
+			parts = append(parts, timeRe.ReplaceAllString(o, "T"))
+		}
+		return strings.Join(parts, "|")
+	}
+	base := cfg()
+	for t := int64(0); t < AgeCap+2; t++ {
+		w.Tick()
+		for round := 0; round < 40; round++ {
+			before := w.Key("")
+			for _, label := range ex.enabled(n).fair {
+				ex.perform(nil, label, Fault{})
+				ex.Counters["look-ahead transitions (finality test)"]++
+			}
+			if w.Key("") == before {
+				break
+			}
+		}
+		if cfg() != base {
+			return false
+		}
+	}
+	return true
 }
 
 func faultSuffix(f Fault) string {
@@ -419,12 +464,26 @@ func (ex *Explorer) addState(n *node, label string, mon MonState, budget Budget,
 	// search order: the undisturbed graph (no deviation budget spent) is completed first, so that every
 	// control state of a whole release is reached and used as a deviation point before the (much larger)
 	// continuations of the deviations are explored breadth-first
-	if budget == ex.initBudget {
+	if ex.Undisturbed(budget) {
 		ex.frontier = append(ex.frontier, nn.id)
 	} else {
 		ex.frontier2 = append(ex.frontier2, nn.id)
 	}
 	return nn.id
+}
+
+// Undisturbed tells whether a budget belongs to the undisturbed graph: no user deviation and no disturbance has
+// been spent (free one-shot actions such as the release itself do not count).
+func (ex *Explorer) Undisturbed(b Budget) bool {
+	if b.User != ex.initBudget.User || b.Disturb != ex.initBudget.Disturb {
+		return false
+	}
+	for name, a := range ex.actions {
+		if !a.Free && b.Used&(1<<ex.actionIndex[name]) != 0 {
+			return false
+		}
+	}
+	return true
 }
 
 // Run explores breadth-first from the current world state.
@@ -461,10 +520,6 @@ func (ex *Explorer) expand(n *node) {
 	es := ex.enabled(n)
 	n.quiesc = len(es.fair) == 0 && !es.tick
 	n.expanded = true
-	x0 := &Ctx{W: w, Sc: ex.Cfg.Sc, Mon: n.mon.clone(), ex: ex, node: n}
-	for _, m := range ex.Cfg.Monitors {
-		m.OnState(x0, n.quiesc)
-	}
 	try := func(label string, f Fault, budget Budget, fair bool) *Transition {
 		w.Restore(n.snap)
 		x := &Ctx{W: w, Sc: ex.Cfg.Sc, Mon: n.mon.clone(), ex: ex, node: n}
@@ -517,8 +572,18 @@ func (ex *Explorer) expand(n *node) {
 		}
 	}
 	if w.FreeQueues && stuck {
+		// nothing changes the state any more except the passage of time; quiescent (for the monitors' end-state
+		// obligations) means that the passage of time does not change it either
 		es.tick = true
-		n.quiesc = true
+		n.quiesc = ex.settlesForGood(n)
+		if n.quiesc {
+			ex.Counters["final (quiescent) states"]++
+		}
+	}
+	w.Restore(n.snap)
+	x0 := &Ctx{W: w, Sc: ex.Cfg.Sc, Mon: n.mon.clone(), ex: ex, node: n}
+	for _, m := range ex.Cfg.Monitors {
+		m.OnState(x0, n.quiesc)
 	}
 	if es.tick {
 		try("tick", Fault{}, n.budget, true)
@@ -538,7 +603,7 @@ func (ex *Explorer) expand(n *node) {
 			ex.Counters["deviation points used"]++
 		}
 		nb := n.budget
-		if !a.Free {
+		if !a.Free && !a.NoCost {
 			nb.User--
 		}
 		if a.OneShot {
@@ -578,6 +643,32 @@ func (ex *Explorer) Replay(labels []string, verbose bool) []string {
 				fmt.Printf("        error: %v\n", t.Result.Err)
 			}
 		}
+	}
+	// end-state obligations (OnState) are judged on the state the trace ends in, exactly as the search does
+	n.snap = w.Snapshot()
+	quiescent := false
+	if w.FreeQueues {
+		stuck, key0 := true, w.Key("")
+		for _, label := range ex.enabled(n).fair {
+			w.Restore(n.snap)
+			ex.perform(nil, label, Fault{})
+			if w.Key("") != key0 {
+				stuck = false
+				break
+			}
+		}
+		quiescent = stuck && ex.settlesForGood(n)
+	} else {
+		es := ex.enabled(n)
+		quiescent = len(es.fair) == 0 && !es.tick
+	}
+	w.Restore(n.snap)
+	x := &Ctx{W: w, Sc: ex.Cfg.Sc, Mon: mon, ex: ex, node: n}
+	for _, m := range ex.Cfg.Monitors {
+		m.OnState(x, quiescent)
+	}
+	if verbose {
+		fmt.Printf("  end state: quiescent=%v\n", quiescent)
 	}
 	return keys
 }
@@ -649,4 +740,63 @@ func Settle(w *World) error {
 		w.Tick()
 	}
 	return fmt.Errorf("scenario did not settle")
+}
+
+// Script drives the world through a hand-written sequence for debugging and for directed regression histories:
+// each item is a transition label (as in traces), or "drain" (take the first enabled controller / environment / gc
+// transition, let time pass when only timers are pending, until nothing is enabled), or "drain:N" (at most N
+// transitions). All monitors run (OnTransition, OnWrite, OnState) exactly as in the search. Real queues are
+// expected (with free queues a drain would never end). It returns the executed labels.
+func (ex *Explorer) Script(items []string, verbose bool) []string {
+	w := ex.W
+	mon := MonState{}
+	n := &node{id: 0, parent: -1, mon: mon, budget: Budget{User: 99, Disturb: 0}}
+	ex.nodes = []*node{n}
+	var done []string
+	step := func(full string) {
+		label, f := splitFault(full)
+		x := &Ctx{W: w, Sc: ex.Cfg.Sc, Mon: mon, ex: ex, node: n}
+		x.Pre = CapturePre(w, ex.Cfg.Sc)
+		t := ex.exec(x, label, f)
+		done = append(done, full)
+		if verbose {
+			fmt.Printf("  %-44s writes=%d  -> %s traffic=[%s]\n", full, len(t.Log), ControlState(w, ex.Cfg.Sc), ReadTraffic(w, ex.Cfg.Sc))
+			for _, wr := range t.Log {
+				fmt.Printf("        %s %s by %s%s\n", wr.Verb, wr.Key, wr.Actor, map[bool]string{true: " (status)", false: ""}[wr.Status])
+				if os.Getenv("VERIF_REPLAY_DIFF") != "" && wr.Before != nil && wr.After != nil {
+					fmt.Printf("            changed: %v\n", lib.JSONDiffValues(wr.Before, wr.After))
+				}
+			}
+			if t.Result != nil && t.Result.Err != nil {
+				fmt.Printf("        error: %v\n", t.Result.Err)
+			}
+		}
+		es := ex.enabled(n)
+		x2 := &Ctx{W: w, Sc: ex.Cfg.Sc, Mon: mon, ex: ex, node: n}
+		for _, m := range ex.Cfg.Monitors {
+			m.OnState(x2, len(es.fair) == 0 && !es.tick)
+		}
+	}
+	for _, it := range items {
+		if it == "drain" || strings.HasPrefix(it, "drain:") {
+			max := 400
+			if strings.HasPrefix(it, "drain:") {
+				fmt.Sscanf(it, "drain:%d", &max)
+			}
+			for i := 0; i < max; i++ {
+				es := ex.enabled(n)
+				switch {
+				case len(es.fair) > 0:
+					step(es.fair[0])
+				case es.tick:
+					step("tick")
+				default:
+					i = max
+				}
+			}
+			continue
+		}
+		step(it)
+	}
+	return done
 }
